@@ -28,6 +28,7 @@ ATOMS = {
     "b1": (1,),
     "nib": (("node", "<nib>", (1, 0, 1, 0)),),
     "byte8": (("node", "<b8>", (1, 1, 1, 1, 1, 1, 1, 1)),),
+    "zero8": (("node", "<z8>", (0, 0, 0, 0, 0, 0, 0, 0)),),
 }
 ACCESSORS = ("str", "bytes", "bits", "int")
 
@@ -235,7 +236,7 @@ def work(item):
                 if not ok:
                     text_then_bits = _text_before_bits(leaves)
                     res["viol"].append(dict(base, kind="wrong_value", accessor=a, got=repr(g), want=repr(w),
-                                            nonlatin_text_followed_by_bits=text_then_bits and a == "str" and g[0] == "ok",
+                                            nonlatin_text_followed_by_bits=text_then_bits and a == "str" and g[0] == "ok" and g[1] == _latin1_model(leaves),
                                             bit_run_spans_subtrees_then_bytes=(g[0] == "err" and w[0] == "ok" and _locally_misaligned(shape, atom_names)),
                                             sig=f"wrong_value:{a}:{g[0]}-vs-{w[0]}"))
             key = tuple(sorted((a, repr(got[a])) for a in ACCESSORS))
@@ -268,6 +269,22 @@ def _locally_misaligned(shape, atom_names):
 
     leaves_under(shape)
     return found[0]
+
+
+def _latin1_model(leaves):
+    """what the known defect computes for str(): text leaves followed only by bit leaves -> the text is kept as it
+    is (Latin-1 round trip) and the bits are appended as Latin-1 characters; None if the leaves have another form"""
+    i = 0
+    while i < len(leaves) and isinstance(leaves[i], str):
+        i += 1
+    bits = leaves[i:]
+    if i == 0 or not bits or not all(isinstance(b, int) for b in bits) or len(bits) % 8:
+        return None
+    try:
+        "".join(leaves[:i]).encode("latin-1")
+    except UnicodeEncodeError:
+        return None
+    return "".join(leaves[:i]) + bytes(int("".join(map(str, bits[k:k + 8])), 2) for k in range(0, len(bits), 8)).decode("latin-1")
 
 
 def _text_before_bits(leaves):
